@@ -85,3 +85,11 @@ reg("C12", level="model_checking", overlay="plain",
     variants=[{"name": "main"}, {"name": "sched", "overlay": "sched", "args": ["-vmode", "sched"]},
               {"name": "race", "race": True, "workers": 1, "args": ["-vmode", "race"]}],
     assumptions=["time advances in steps from a 13-value alphabet around the thresholds", "crypto/rand is a deterministic counter stream"])
+
+reg("C16", level="model_checking", overlay="plain",
+    technique="exhaustive enumeration of event orders in synctest virtual time (one event per big step), lock-free guard under all CAS interleavings, free-running race pass",
+    level_text="MeasureClockOffsets runs in a bubble; clock callbacks are parked harness functions, so the explorer decides the total order of clock returns and the cancellation and checks return timing, result slice and goroutine quiescence on every order; the in-progress guard is explored under all interleavings of its compare-and-swap operations with the cooperative scheduler.",
+    budget={"quick": 120, "thorough": 900}, workers={"quick": 16, "thorough": 16},
+    variants=[{"name": "main"}, {"name": "sched", "overlay": "sched", "args": ["-vmode", "sched"], "workers": 1},
+              {"name": "race", "race": True, "workers": 1, "args": ["-vmode", "race"]}],
+    assumptions=["simultaneously ready events are equivalent to one of their sequential orders (reduction argument in DESIGN.md section 3)"])
